@@ -11,6 +11,7 @@ The line-level view of a `bufio.Reader`, for any buffer size: what the byte-leve
 Core only.
 -/
 import Biogo.Go.Bytes
+import Biogo.Go.Bufio
 
 namespace Biogo.Spec.Bufio
 open Biogo.Go.Bytes
@@ -35,5 +36,34 @@ def lineInput (size : Nat) (withData : Bool) (bs : Bytes) : List Bytes × Bytes 
   else match bs.getLast?, ls.getLast? with
     | some b, some l => if b != 10 && endsPending size l then (ls.dropLast, l) else (ls, [])
     | _, _ => (ls, [])
+
+/-! ### the methods as functions of the undelivered byte stream
+
+`st` is everything not yet handed to the caller (buffered or still in the underlying reader),
+`size` the buffer size, `fin` the final error of the underlying reader and `early` whether that
+error arrives together with the last bytes.  `Proofs/Bufio.lean` proves that the byte-level
+model computes exactly these, whatever the chunking of the underlying reads. -/
+
+open Biogo.Go.Bufio (Err Line indexByte)
+
+/-- `ReadSlice(delim)`: the slice, the error, the stream afterwards -/
+def sliceOf (size : Nat) (delim : UInt8) (fin : Err) (early : Bool) (st : Bytes) : Bytes × Option Err × Bytes :=
+  match indexByte (st.take size) delim with
+  | some i => (st.take (i + 1), none, st.drop (i + 1))
+  | none =>
+    if st.length < size ∨ (st.length = size ∧ early = true) then (st, some fin, [])
+    else (st.take size, some .bufferFull, st.drop size)
+
+/-- `ReadLine()` -/
+def lineOf (size : Nat) (fin : Err) (early : Bool) (st : Bytes) : Line × Bytes :=
+  match sliceOf size 10 fin early st with
+  | (line, err, st') =>
+    if err = some .bufferFull then
+      if line.getLast? = some 13 then (⟨line.dropLast, true, none⟩, 13 :: st')
+      else (⟨line, true, none⟩, st')
+    else if line.length = 0 then (⟨[], false, err⟩, st')
+    else if line.getLast? = some 10 then
+      (⟨line.take (line.length - (if line.length > 1 ∧ line[line.length - 2]? = some 13 then 2 else 1)), false, none⟩, st')
+    else (⟨line, false, none⟩, st')
 
 end Biogo.Spec.Bufio
